@@ -632,12 +632,16 @@ def poppush(stack, u, v, eps):
     return If(v == eps, base, Word.snoc(base, v))
 
 
+def pstep_body(P, c, a, c2, u, q, v):
+    dl = rec_get(P, 'delta'); dom, val = map_dom(dl), map_val(dl); eps = rec_get(P, 'epsilon').z
+    k = mkKey3(_pc[2](c), a, u)
+    return And(Select(dom, k), Select(Select(val, k), _t2[1](q, v)), canpop(_pc[3](c), u, eps), c2 == _pc[1](q, poppush(_pc[3](c), u, v, eps)))
+
+
 def pstep(P, c, a, c2):
     """c --a--> c2 is one transition of P (a may be P.epsilon): exactly can-pop-push / pop-push of the definition"""
-    dl = rec_get(P, 'delta'); dom, val = map_dom(dl), map_val(dl); eps = rec_get(P, 'epsilon').z
     u, q, v = fresh_z('u', Atom), fresh_z('q', Atom), fresh_z('v', Atom)
-    k = mkKey3(_pc[2](c), a, u)
-    return Exists([u, q, v], And(Select(dom, k), Select(Select(val, k), _t2[1](q, v)), canpop(_pc[3](c), u, eps), c2 == _pc[1](q, poppush(_pc[3](c), u, v, eps))))
+    return Exists([u, q, v], pstep_body(P, c, a, c2, u, q, v))
 
 
 EcloP = Function('EcloP', PDAs, SetC, SetC)                  # closure under epsilon steps (least fixpoint; may be infinite)
@@ -1109,3 +1113,50 @@ def s_msg_should(ev, w): return SV(TEXT, msg_should(w.z))
 def s_show_word(ev, w):
     """how the checkers print a word: the empty word as the one-letter word epsilon"""
     return SV(WORD, If(w.z == Word.nil, Word.snoc(Word.nil, ev.atom_const('ε').z), w.z))
+
+
+# ====================================================================== PDA with a single accepting state (C10)
+def pda_cfg_ok(P):
+    """what the construction needs of P: transitions start and end in Q, accepting states are states"""
+    dl = rec_get(P, 'delta'); Q = rec_get(P, 'Q').z
+    p, a, u, q, v = [fresh_z(n, Atom) for n in 'pauqv']
+    return And(ForAll([p, a, u, q, v], Implies(And(Select(map_dom(dl), mkKey3(p, a, u)), Select(Select(map_val(dl), mkKey3(p, a, u)), _t2[1](q, v))), And(Select(Q, p), Select(Q, q)))),
+               _sub(rec_get(P, 'F').z, Q), Select(Q, rec_get(P, 'q0').z))
+
+
+def one_acc_struct(P, P2, qa):
+    """P2 is P plus the state qa, reached from every accepting state of P by a stack-neutral epsilon move, as the only accepting state"""
+    d1, d2 = rec_get(P, 'delta'), rec_get(P2, 'delta'); eps = rec_get(P, 'epsilon').z
+    p, a, u, q, v = [fresh_z(n, Atom) for n in 'pauqv']
+    k = mkKey3(p, a, u); t = _t2[1](q, v)
+    has1 = And(Select(map_dom(d1), k), Select(Select(map_val(d1), k), t)); has2 = And(Select(map_dom(d2), k), Select(Select(map_val(d2), k), t))
+    return And(pda_cfg_ok(P), Not(Select(rec_get(P, 'Q').z, qa)), rec_get(P2, 'q0').z == rec_get(P, 'q0').z, rec_get(P2, 'epsilon').z == eps,
+               ForAll([q], Select(rec_get(P2, 'F').z, q) == (q == qa)),
+               ForAll([p, a, u, q, v], has2 == Or(has1, And(Select(rec_get(P, 'F').z, p), a == eps, u == eps, q == qa, v == eps))))
+
+
+one_acc_b = Function('one_acc_struct', PDAs, PDAs, Atom, BoolSort())
+_P2 = Const('P2', PDAs); _qa = Const('qa', Atom)
+axiom('pdax', 'def', 'one_acc_struct-def', ForAll([_Pp, _P2, _qa], one_acc_b(_Pp, _P2, _qa) == one_acc_struct(_Psv, SV(REC('PDA'), _P2), _qa)))
+ExtF = Function('ExtF', PDAs, Atom, SetC, SetC)       # C plus (qa, s) for every (q, s) in C with q accepting in P
+_s = Const('s', Word)
+axiom('pdax', 'def', 'ExtF-def', ForAll([_Pp, _qa, _Rc, _c1], Select(ExtF(_Pp, _qa, _Rc), _c1) ==
+      Or(Select(_Rc, _c1), And(_pc[2](_c1) == _qa, z3.Exists([_q], And(Select(rec_get(_Psv, 'F').z, _q), Select(_Rc, _pc[1](_q, _pc[3](_c1)))))))))
+def _inQ(P, C):
+    c = fresh_z('c', Conf); return ForAll([c], Implies(Select(C, c), Select(rec_get(P, 'Q').z, _pc[2](c))))
+axiom('pdax', 'lemma', 'one-acc-eclo', ForAll([_Pp, _P2, _qa, _Rc], Implies(And(one_acc_b(_Pp, _P2, _qa), _inQ(_Psv, _Rc)),
+      And(EcloP(_P2, _Rc) == ExtF(_Pp, _qa, EcloP(_Pp, _Rc)), _inQ(_Psv, EcloP(_Pp, _Rc)))),
+      patterns=[z3.MultiPattern(one_acc_b(_Pp, _P2, _qa), EcloP(_P2, _Rc))]))
+axiom('pdax', 'lemma', 'one-acc-sim', ForAll([_Pp, _P2, _qa, _w, _Sg], Implies(And(one_acc_b(_Pp, _P2, _qa), over(_Sg, _w), Not(Select(_Sg, rec_get(_Psv, 'epsilon').z))),
+      And(reachP(_P2, _w) == ExtF(_Pp, _qa, reachP(_Pp, _w)), _inQ(_Psv, reachP(_Pp, _w))))))
+def pda_acc_z(P, w):
+    c = fresh_z('c', Conf)
+    return Exists([c], And(Select(reachP(P.z, w), c), Select(rec_get(P, 'F').z, _pc[2](c))))
+axiom('pdax', 'lemma', 'one-acc-lang', ForAll([_Pp, _P2, _qa, _w, _Sg], Implies(And(one_acc_b(_Pp, _P2, _qa), over(_Sg, _w), Not(Select(_Sg, rec_get(_Psv, 'epsilon').z))),
+      pda_acc_z(SV(REC('PDA'), _P2), _w) == pda_acc_z(_Psv, _w))))
+
+
+@spec('one_acc_struct')
+def s_one_acc_struct(ev, P, P2, qa): return SV(BOOL, one_acc_b(P.z, P2.z, qa.z))
+@spec('pda_cfg_ok')
+def s_pda_cfg_ok(ev, P): return SV(BOOL, pda_cfg_ok(P))
